@@ -27,6 +27,7 @@ def tokenize(s):
     out = []
     i = 0
     s = re.sub(r'#line[^\n]*\n', '\n', s)
+    s = re.sub(r'#pragma[^\n]*\n', '\n', s)
     while i < len(s):
         m = TOK.match(s, i)
         if not m:
@@ -225,6 +226,7 @@ class Parser:
 def parse_function(text):
     """text: 'RET name(params) [contracts] { body }' -> (ret, name, [(type,name)], body)"""
     text = re.sub(r'#line[^\n]*', '', text)
+    text = re.sub(r'#pragma[^\n]*', '', text)
     m = re.match(r'\s*([\w\s\*]+?)\s+(\w+)\s*\(([^)]*)\)', text)
     if not m:
         raise WPError('cannot parse signature: ' + text[:80])
@@ -409,18 +411,26 @@ class SymEval:
             if f[0] != 'var':
                 raise WPError('indirect call')
             name = f[1]
-            args = [self.ev(a, env) for a in e[2]]
+            args = []
+            for a in e[2]:
+                b = a
+                while b[0] in ('addr', 'deref'):
+                    b = b[1]
+                if b[0] == 'var' and b[1] not in env and any(k.startswith(b[1] + '.') for k in env):
+                    # a class object handed on: its data members, in declaration order
+                    args += [env[k] for k in env if k.startswith(b[1] + '.')]
+                else:
+                    args.append(self.ev(a, env))
             if name in self.funcs:
                 ps, rty = self.funcs[name]
+                if len(ps) != len(args):
+                    raise WPError('call of %s with a class object argument is not supported' % name)
                 al = [self.conv(a, pty)[0] for a, (pty, _) in zip(args, ps)]
                 self.side.append((self.pc, '(%s__ok %s)' % (name, ' '.join(al)), 'callee %s side conditions' % name))
                 return ('(%s %s)' % (name, ' '.join(al)), rty)
             if name == 'vp_sqrt' and self.mode == 'real':
-                self.fresh += 1
-                s = 'sqrt_%d' % self.fresh
-                self.decls.append('(declare-const %s Real)' % s)
-                self.axioms.append('(=> (>= %s 0.0) (and (>= %s 0.0) (= (* %s %s) %s)))' % (args[0][0], s, s, s, args[0][0]))
-                return (s, 'T')
+                # sqrt is an uninterpreted function vp_sqrt_r; the property file instantiates its axiom where needed
+                return ('(vp_sqrt_r %s)' % args[0][0], 'T')
             if name == 'vp_fabs' and self.mode == 'real':
                 return ('(ite (< %s 0.0) (- %s) %s)' % (args[0][0], args[0][0], args[0][0]), 'T')
             if name in ('vp_max_sz', 'vp_min_sz'):
@@ -506,14 +516,25 @@ def smt_sort(cty, mode):
     return 'Int'
 
 
-def define_function(text, mode, funcs, free=()):
+def define_function(text, mode, funcs, free=(), structs=None):
     """returns SMT-LIB text defining <name> and <name>__ok, and the signature"""
     ret, name, params, body = parse_function(text)
     se = SymEval(mode, funcs)
     env = {}
+    structs = structs or {}
+    expanded = []
     for (ty, nm) in params:
         ty0 = ty.rstrip('*')
+        if ty0 in structs:
+            # a class object passed by pointer: one SMT parameter per data member
+            for (fty, fnm) in structs[ty0]:
+                sym = '%s__%s' % (nm, fnm)
+                env['%s.%s' % (nm, fnm)] = (sym, fty)
+                expanded.append((fty, sym))
+            continue
         env[nm] = (nm, ty0)
+        expanded.append((ty, nm))
+    params = expanded
     se.pc = 'true'
     env2, pc, rets = se.run(body, env, 'true')
     if not rets:
@@ -643,7 +664,7 @@ def run_job_uncached(job, tier='quick'):
         for cname in job['functions']:
             e = BLD.emit_function(cname, {})
             res['meta']['functions'] += e['audit']
-            d, (name, params, rty), side = define_function(e['text'], mode, funcs)
+            d, (name, params, rty), side = define_function(e['text'], mode, funcs, structs=job.get('structs'))
             funcs[name] = (params, rty)
             defs.append('; ---- generated from the extracted text of %s (%d side conditions) ----\n%s' % (cname, len(side), d))
         for frag in job.get('fragments', []):
@@ -662,7 +683,7 @@ def run_job_uncached(job, tier='quick'):
         return res
     common, obs = parse_property_file(os.path.join(BLD.ROOT, job['property_file']))
     solvers = job.get('solvers', ['z3', 'z3-new', 'cvc5'] if mode == 'int' else ['z3', 'z3-new'])
-    logic = '(set-logic ALL)\n' if mode == 'int' else ''
+    logic = '(set-logic ALL)\n' if mode == 'int' else '(declare-fun vp_sqrt_r (Real) Real)\n'
     os.makedirs(BLD.OUT, exist_ok=True)
     timeout = 60 if tier == 'quick' else 300
     for ob in obs:
@@ -678,7 +699,7 @@ def run_job_uncached(job, tier='quick'):
             st = 'undecided'
             res['notes'].append('solvers disagree on %s: %s' % (ob['name'], verdicts))
         elif ob['name'].endswith('_sat_expected'):
-            st = 'proved' if ('sat' in vs and 'unsat' not in vs) else 'failed'
+            st = 'proved' if ('sat' in vs and 'unsat' not in vs) else ('failed' if 'unsat' in vs else 'undecided')
         elif 'sat' in vs:
             st = 'failed'
         elif n_unsat >= min(need, len(solvers)):
